@@ -27,9 +27,9 @@ def twins(u):
     return out
 
 
-def check_twin(ctx, backend, p):
+def check_twin(ctx, backend, p, touch=False):
     Y = ctx.yarl(backend)
-    u, trace = prog.run(Y, p)
+    u, trace = prog.run(Y, p, touch=touch)
     if u is None:
         ctx.case(False, label="skipped:rejected")
         return
@@ -83,7 +83,7 @@ def degenerate(ctx, backend):
 
 
 def generated(ctx, backend, n):
-    ctx.given("twin", {"p": prog.program(gen.text(max_tokens=4), encoded_ctor=True)}, max_examples=n, fixed={"backend": backend})
+    ctx.given("twin", {"p": prog.program(gen.text(max_tokens=4), encoded_ctor=True), "touch": st.booleans()}, max_examples=n, fixed={"backend": backend})
 
 
 def shards(tier, seed):
